@@ -72,7 +72,7 @@ func (v *Vue) Funcs(funcMap FuncMap) *Vue {
 // RenderNodes evaluates and renders HTML nodes with the given data.
 // This is the core rendering function used by all public render methods.
 func (v *Vue) RenderNodes(w io.Writer, nodes []*html.Node, data any) error {
-	dataMap := toMapData(data)
+	dataMap := mergeFrontMatter(toMapData(data), nil)
 
 	ctx := NewVueContext("", &VueContextOptions{
 		Stack:      NewStackWithData(dataMap, data),
@@ -124,12 +124,11 @@ func toMapData(data any) map[string]any {
 	return make(map[string]any)
 }
 
-// mergeFrontMatter returns data overlaid with frontMatter. The caller's map is
-// never written to: when there is front-matter to merge, a copy is returned.
+// mergeFrontMatter returns a new map holding data overlaid with frontMatter.
+// The result becomes the root scope of a render, which template-level
+// assignments (`<template :x="...">`) write to, so it is always a copy:
+// the caller's map is never written to.
 func mergeFrontMatter(data, frontMatter map[string]any) map[string]any {
-	if len(frontMatter) == 0 {
-		return data
-	}
 	merged := make(map[string]any, len(data)+len(frontMatter))
 	for k, v := range data {
 		merged[k] = v
